@@ -247,6 +247,10 @@ SimNext ==
   \/ \E i \in S(HookIdx) : \E j \in DOMAIN Hooks[i].kube : (KubeEvent(i, j) /\ act' = <<"KubeEvent", i, j>>)
   \/ \E i \in S(HookIdx) : \E j \in DOMAIN Hooks[i].sched : (Tick(Hooks[i].sched[j].crontab) /\ act' = <<"Tick", Hooks[i].sched[j].crontab>>)
   \/ (nextId >= ShutdownAfter /\ Shutdown /\ act' = <<"Shutdown">>)
+  \* bursts: more events while some hook is running (they pile up and get combined), and failures of combined runs
+  \/ ((\E q \in AllQueues : run[q] # NONE) /\ \E i \in S(HookIdx) : \E j \in DOMAIN Hooks[i].kube : (KubeEvent(i, j) /\ act' = <<"KubeEvent", i, j>>))
+  \/ ((\E q \in AllQueues : run[q] # NONE) /\ \E i \in S(HookIdx) : \E j \in DOMAIN Hooks[i].kube : (KubeEvent(i, j) /\ act' = <<"KubeEvent", i, j>>))
+  \/ \E q \in S(AllQueues) : (run[q] # NONE /\ Len(run[q].all) >= 2 /\ Finish(q, FALSE) /\ act' = <<"Finish", q, FALSE>>)
 SimSpec == Init /\ [][SimNext]_vars
 
 Spec == Init /\ [][Next]_vars
